@@ -200,7 +200,10 @@ func expectNext(tr *tokenReader, kinds ...tokenKind) ([]token, error) {
 }
 
 func optNewline(tr *tokenReader) {
-	tr.Next()
+	if !tr.Next() {
+		// no token was read: un-reading here would replay the previous one
+		return
+	}
 	if tr.Token().kind != tokenKindNewline {
 		tr.UnNext()
 	}
@@ -610,11 +613,14 @@ func readUnion(tr *tokenReader) (Union, error) {
 	nextCommentTags := []Tag{}
 	nextDeprecatedMessage := ""
 	nextIsDeprecated := false
-	for tr.Token().kind != tokenKindCloseCurly {
+	for {
 		if !tr.Next() {
 			return union, readError(tr.nextToken, "union definition ended early")
 		}
 		tk := tr.Token()
+		if tk.kind == tokenKindCloseCurly {
+			break
+		}
 		switch tk.kind {
 		case tokenKindNewline:
 			nextCommentLines = []string{}
@@ -688,6 +694,10 @@ func readUnion(tr *tokenReader) (Union, error) {
 				nextCommentTags = append(nextCommentTags, tag)
 			}
 			nextCommentLines = append(nextCommentLines, cmt)
+		case tokenKindSemicolon:
+			// tolerated after a branch
+		default:
+			return union, readError(tk, "unexpected token %v in union definition", tk.kind)
 		}
 	}
 
